@@ -156,3 +156,263 @@ func (cs *Case) SourceOpt(l Layout, parenSlice bool) string {
 	}
 	return s
 }
+
+// ---- C02: function definitions with parameters ----
+
+var FuncParamTypes = []Type{"int", "string", "bool", "U", "R", "int*string", "[]int", "int->int", "Opt<int>"}
+var FuncRetTypes = []Type{"int", "string", "bool", "unit", "[]int", "int*string", "R", "U", "Opt<int>"}
+
+// FuncCase is one generated top-level function (fully annotated form).
+type FuncCase struct {
+	Def  FuncDef
+	Used map[string]int
+}
+
+// BuildFuncCase enumerates a function with up to maxParams annotated parameters
+// whose body has exactly `fuel` constructs and uses every parameter.
+func BuildFuncCase(g *Gen, fuel, maxParams int) *FuncCase {
+	n := g.C.Choose(maxParams + 1)
+	var env Env2
+	fd := FuncDef{Name: "f"}
+	names := []string{"a", "b", "c"}
+	for i := 0; i < n; i++ {
+		t := FuncParamTypes[g.C.Choose(len(FuncParamTypes))]
+		fd.Params = append(fd.Params, Param{Name: names[i], Type: t})
+		env = env.with(names[i], t)
+	}
+	if n == 0 {
+		fd.Params = []Param{{Unit: true}}
+	}
+	rt := FuncRetTypes[g.C.Choose(len(FuncRetTypes))]
+	g.InBlock = true
+	fd.Body = g.blk(rt, env, fuel)
+	g.InBlock = false
+	for i := 0; i < n; i++ {
+		if !Uses(fd.Body, names[i]) {
+			g.C.Skip("unused parameter")
+		}
+	}
+	return &FuncCase{Def: fd, Used: g.Used}
+}
+
+// ParamRoles reports, per parameter name, the syntactic roles that need the
+// parameter's type at parse time or fall under the documented inference limits.
+func ParamRoles(b *Block) map[string]map[string]bool {
+	roles := map[string]map[string]bool{}
+	mark := func(e Expr, role string) {
+		if v, ok := e.(Var); ok {
+			if roles[v.Name] == nil {
+				roles[v.Name] = map[string]bool{}
+			}
+			roles[v.Name][role] = true
+		}
+	}
+	var walk func(x interface{})
+	walk = func(x interface{}) {
+		switch v := x.(type) {
+		case nil:
+		case App:
+			// the applied function itself
+			if roles[v.Fn] == nil {
+				roles[v.Fn] = map[string]bool{}
+			}
+			roles[v.Fn]["applied"] = true
+			for _, a := range v.Args {
+				walk(a)
+			}
+		case BinOp:
+			switch v.Op {
+			case "&&", "||":
+				mark(v.L, "logic-operand")
+				mark(v.R, "logic-operand")
+			case "+", "-", "*", "/", "<", ">", "<=", ">=":
+				_, lv := v.L.(Var)
+				_, rv := v.R.(Var)
+				if lv && rv {
+					mark(v.L, "arith-both-variables")
+					mark(v.R, "arith-both-variables")
+				}
+			}
+			walk(v.L)
+			walk(v.R)
+		case Not:
+			mark(v.E, "logic-operand")
+			walk(v.E)
+		case Paren:
+			walk(v.E)
+		case If:
+			walk(v.Cond)
+			walk(v.Then)
+			for _, ea := range v.Elifs {
+				walk(ea.Cond)
+				walk(ea.Body)
+			}
+			if v.Else != nil {
+				walk(v.Else)
+			}
+		case Match:
+			mark(v.Target, "match-target")
+			walk(v.Target)
+			for _, a := range v.Arms {
+				walk(a.Body)
+			}
+			if v.Default != nil {
+				walk(v.Default)
+			}
+		case SMatch:
+			mark(v.Target, "string-match-target")
+			walk(v.Target)
+			for _, a := range v.Lits {
+				walk(a.Body)
+			}
+			walk(v.Last)
+		case *Block:
+			if v == nil {
+				return
+			}
+			for _, s := range v.Stmts {
+				switch st := s.(type) {
+				case Let:
+					walk(st.Rhs)
+				case LetDestr:
+					walk(st.Rhs)
+				case LetFun:
+					walk(st.Body)
+				case ExprStmt:
+					walk(st.E)
+				}
+			}
+			walk(v.Final)
+		case Lambda:
+			walk(v.Body)
+		case Tuple:
+			for _, a := range v.Es {
+				walk(a)
+			}
+		case SliceLit:
+			for _, a := range v.Es {
+				walk(a)
+			}
+		case RecordLit:
+			for _, f := range v.Fields {
+				walk(f.E)
+			}
+		case Field:
+			mark(v.E, "field-target")
+			walk(v.E)
+		case Ctor:
+			walk(v.Arg)
+		case Interp:
+			for _, p := range v.Parts {
+				if p.Hole != "" {
+					if roles[p.Hole] == nil {
+						roles[p.Hole] = map[string]bool{}
+					}
+					roles[p.Hole]["interpolated"] = true
+				}
+			}
+		}
+	}
+	walk(b)
+	return roles
+}
+
+// Walk visits every expression node under x (pre-order).
+func Walk(x interface{}, f func(e Expr)) {
+	var blk func(b *Block)
+	var w func(e Expr)
+	blk = func(b *Block) {
+		if b == nil {
+			return
+		}
+		for _, s := range b.Stmts {
+			switch st := s.(type) {
+			case Let:
+				w(st.Rhs)
+			case LetDestr:
+				w(st.Rhs)
+			case LetFun:
+				blk(st.Body)
+			case ExprStmt:
+				w(st.E)
+			}
+		}
+		w(b.Final)
+	}
+	w = func(e Expr) {
+		if e == nil {
+			return
+		}
+		f(e)
+		switch v := e.(type) {
+		case App:
+			for _, a := range v.Args {
+				w(a)
+			}
+		case BinOp:
+			w(v.L)
+			w(v.R)
+		case Not:
+			w(v.E)
+		case Paren:
+			w(v.E)
+		case If:
+			w(v.Cond)
+			blk(v.Then)
+			for _, ea := range v.Elifs {
+				w(ea.Cond)
+				blk(ea.Body)
+			}
+			blk(v.Else)
+		case Match:
+			w(v.Target)
+			for _, a := range v.Arms {
+				blk(a.Body)
+			}
+			blk(v.Default)
+		case SMatch:
+			w(v.Target)
+			for _, a := range v.Lits {
+				blk(a.Body)
+			}
+			blk(v.Last)
+		case *Block:
+			blk(v)
+		case Lambda:
+			blk(v.Body)
+		case Tuple:
+			for _, a := range v.Es {
+				w(a)
+			}
+		case SliceLit:
+			for _, a := range v.Es {
+				w(a)
+			}
+		case RecordLit:
+			for _, fl := range v.Fields {
+				w(fl.E)
+			}
+		case Field:
+			w(v.E)
+		case Ctor:
+			w(v.Arg)
+		}
+	}
+	switch v := x.(type) {
+	case *Block:
+		blk(v)
+	default:
+		w(v)
+	}
+}
+
+// CountApps counts the applications whose head is name.
+func CountApps(b *Block, name string) int {
+	n := 0
+	Walk(b, func(e Expr) {
+		if a, ok := e.(App); ok && a.Fn == name && len(a.Args) > 0 {
+			n++
+		}
+	})
+	return n
+}
